@@ -160,7 +160,17 @@ def %(ks)s(self, value):
     except QuaraScheduleItemError as e:
         raise QuaraScheduleItemError(e.args[0] + '')
     else:
-        self._%(ks)s = value
+        %(target)s = value
+"""
+T_COPY = """
+def copy(self):
+    states = copy.copy(self.states)
+    gates = copy.copy(self.gates)
+    povms = copy.copy(self.povms)
+    mprocesses = copy.copy(self.mprocesses)
+    schedules = copy.copy(self.schedules)
+    experiment = Experiment(states=states, gates=gates, povms=povms, mprocesses=mprocesses, schedules=schedules)
+    return experiment
 """
 T_SCHED_SETTER = """
 def schedules(self, value):
@@ -284,11 +294,21 @@ def extract():
     _match(_norm_src(_func(tree, "Experiment", "schedules", setter=True)), T_SCHED_SETTER, "Experiment.schedules.setter")
     _match(_norm_src(_func(tree, "Experiment", "calc_prob_dist")), T_CALC, "Experiment.calc_prob_dist")
     _match(_norm_src(_func(tree, "Experiment", "_validate_schedule_index")), T_SCHED_INDEX, "Experiment._validate_schedule_index")
+    keys = ("state", "povm", "gate", "mprocess")
+    src_code = {f"self._{plural(x)}": i for i, x in enumerate(keys)}
+    src_code["value"] = 4
+    tb["setterDicts"], tb["setterAssigns"] = [], []
     for k, cls in (("state", "State"), ("povm", "Povm"), ("gate", "Gate"), ("mprocess", "MProcess")):
-        d = {x: f"self._{plural(x)}" for x in ("state", "povm", "gate", "mprocess")}
-        d[k] = "value"
-        _match(_norm_src(_func(tree, "Experiment", plural(k), setter=True)), T_SETTER % dict(ks=plural(k), cls=cls, **d),
-               f"Experiment.{plural(k)}.setter")
+        src = _norm_src(_func(tree, "Experiment", plural(k), setter=True))
+        m = re.search(r"objdict = dict\(state=([\w.]+), povm=([\w.]+), gate=([\w.]+), mprocess=([\w.]+)\)", src)
+        a = re.search(r"\n    else:\n        (self\._\w+) = value\n?$", src)
+        if not m or not a or any(x not in src_code for x in m.groups()) or a.group(1) not in src_code:
+            raise Untranslatable(f"Experiment.{plural(k)}.setter: cannot read the objdict entries / the assignment")
+        d = dict(zip(keys, m.groups()))
+        _match(src, T_SETTER % dict(ks=plural(k), cls=cls, target=a.group(1), **d), f"Experiment.{plural(k)}.setter")
+        tb["setterDicts"].append([src_code[x] for x in m.groups()])
+        tb["setterAssigns"].append(src_code[a.group(1)])
+    _match(_norm_src(_func(tree, "Experiment", "copy")), T_COPY, "Experiment.copy")
     # --- supported strings
     t2 = _parse(STD + "standard_qtomography.py")
     src = _norm_src(_func(t2, "StandardQTomography", "_validate_schedules_str"))
@@ -356,6 +376,11 @@ def render(tb):
            f"def lastKinds : List String := {_ls(tb['lastKinds'])}",
            "def limits : List (String × Nat) := [" + ", ".join(f'("{k}", {n})' for k, n in tb["limits"]) + "]",
            f"def supportedStrs : List String := {_ls(tb['supportedStrs'])}",
+           "/-! the four list setters (states, povms, gates, mprocesses): for each, what `objdict` holds under the keys",
+           "state, povm, gate, mprocess (0..3 = the experiment's own states / povms / gates / mprocesses list, 4 = the new value),",
+           "and which own list is assigned on success -/",
+           "def setterDicts : List (List Nat) := [" + ", ".join("[" + ", ".join(map(str, d)) + "]" for d in tb["setterDicts"]) + "]",
+           "def setterAssigns : List Nat := [" + ", ".join(map(str, tb["setterAssigns"])) + "]",
            "/-! per tomography class: positional kind tests `schedule[p][0] != k`, the position whose index must be 0, the optional",
            "leading length test `len(schedule) != n` (none = the class has no such test),",
            "and the lists handed to `Experiment` (states, povms, gates, mprocesses): 0 = `[]`/absent, 1 = `[None]`,",
